@@ -1,5 +1,7 @@
 package main
 
+// Property -> rules.
+
 import (
 	"fmt"
 	"os"
@@ -17,6 +19,8 @@ var props = map[string]*propDef{}
 
 func registerProp(p *propDef) { props[p.ID] = p }
 
+var allKeywords = []string{"@immutable", "@testonly", "@mutable", "@implements", "@constructor", "@packageonly", "@ignore"}
+
 func init() {
 	registerProp(&propDef{ID: "C01", Rules: func(c *Ctx) {
 		c.ruleSitesIMM()
@@ -24,7 +28,28 @@ func init() {
 		c.ruleWalkRoot("immutable")
 		c.ruleWalkState("immutable")
 		c.ruleIter("immutable", "indexing", "annotations")
-	}, Explanation: "wip"})
+		c.ruleIndexSrc("indexing.BuildImmutableTypesIndex", "indexing.BuildConstructorIndex", "indexing.BuildMutableFieldsIndex")
+		c.ruleIterPackages()
+		c.ruleLangEq("@immutable", "@mutable", "@constructor")
+		c.ruleAttach("@immutable", "@mutable", "@constructor")
+		c.rulePost("@constructor")
+		c.ruleReportGate()
+	}, Explanation: "Every IMM report site: complete guard signature (upstream guards of the literal + guards along the forward flow of the value to the reporter) compared with the signature the statement dictates: immutable-index membership (+), @mutable (-), constructor exemption limited to the type's own package and keyed by the enclosing top-level function (-), alias-safe pointer-stripping type resolution, AST dispatch incl. Tok, receiver identity by object; no other restrictive guard. Walk: no pruning, root = every top-level declaration of every filtered file, no state carried between nodes/declarations/files, every list element visited. Indices built uniformly from local + imported annotations; annotation grammar and attachment of @immutable/@mutable/@constructor."})
+
+	registerProp(&propDef{ID: "C02", Rules: func(c *Ctx) {
+		c.ruleSitesCTOR()
+		c.rulePrune("constructor")
+		c.ruleWalkRoot("constructor")
+		c.ruleWalkState("constructor")
+		c.ruleIter("constructor", "indexing", "annotations")
+		c.ruleIndexSrc("indexing.BuildConstructorIndex")
+		c.ruleIterPackages()
+		c.ruleLangEq("@constructor")
+		c.ruleAttach("@constructor")
+		c.rulePost("@constructor")
+		c.ruleReportGate()
+	}, Explanation: "Every CTOR report site: guard signature = constructor-index membership (+), exemption = own package AND Match(enclosing top-level function) (-), alias-safe type resolution (pointer strip for literals), dispatch CompositeLit / new-call with one argument / var spec without initialiser, not blank, not pointer; no other restrictive guard; value reaches the reporter from every call site. Walk per top-level declaration, no pruning (nested literals), no walk state. Constructor-name list parsing (split/trim) and index construction."})
+
 	registerProp(&propDef{ID: "C03", Rules: func(c *Ctx) {
 		c.ruleSitesTONL()
 		c.rulePrunePred()
@@ -34,7 +59,13 @@ func init() {
 		c.ruleWalkRoot("testonly")
 		c.ruleWalkState("testonly")
 		c.ruleIter("testonly", "indexing", "annotations")
-	}, Explanation: "wip"})
+		c.ruleIndexSrc("indexing.BuildTestOnlyTypesIndex", "indexing.BuildTestOnlyFuncsIndex", "indexing.BuildTestOnlyMethodsIndex")
+		c.ruleIterPackages()
+		c.ruleLangEq("@testonly")
+		c.ruleAttach("@testonly")
+		c.ruleReportGate()
+	}, Explanation: "Every TONL report site: membership in the type/func/method index (+) with resolved-object provenance (direct calls resolved through TypesInfo.Uses to a package-level *types.Func), not in a _test.go file (-), ignore gate on the violation's own code and position before the per-file dedup (-), dedup keyed by package path and type name and created per file; dispatch per call path (CompositeLit; ValueSpec, Field; CallExpr forms). The only prune is below a FuncDecl whose own kind-specific index lookup matches (predicate summary). Index builders filter on the Kind discriminant."})
+
 	registerProp(&propDef{ID: "C04", Rules: func(c *Ctx) {
 		c.ruleSitesPKGO()
 		c.ruleGateBeforeDedup("packageonly")
@@ -44,25 +75,14 @@ func init() {
 		c.ruleWalkRoot("packageonly")
 		c.ruleWalkState("packageonly")
 		c.ruleIter("packageonly", "indexing", "annotations")
-	}, Explanation: "wip"})
-	registerProp(&propDef{ID: "C02", Rules: func(c *Ctx) {
-		c.ruleSitesCTOR()
-		c.rulePrune("constructor")
-		c.ruleWalkRoot("constructor")
-		c.ruleWalkState("constructor")
-		c.ruleIter("constructor", "indexing", "annotations")
-	}, Explanation: "wip"})
-}
+		c.ruleIndexSrc("indexing.BuildPackageOnlyIndex")
+		c.ruleIterPackages()
+		c.ruleLangEq("@packageonly")
+		c.ruleAttach("@packageonly")
+		c.rulePost("@packageonly")
+		c.ruleReportGate()
+	}, Explanation: "Every PKGO report site: annotated (+), other package than the declaring one, NOT allowed by path AND NOT allowed by name (both queries on the same item key, last argument pass.Pkg.Path() resp. pass.Pkg.Name()), ignore gate with the site's own code constant and position, PKGO01 dedup keyed by path+name after the gate; per call path: SelectorExpr and Ident references resolved with ObjectOf to TypeName / Func with/without receiver. Union of all allow lists: builder adds every element of every annotation's AllowedPackages; container write-back on every path; declaring package always in the list; no pruning of selector operands."})
 
-func init() {
-	registerProp(&propDef{ID: "C15", Rules: func(c *Ctx) {
-		c.ruleLangEq()
-		c.ruleAttach("@immutable", "@testonly", "@mutable", "@implements", "@constructor", "@packageonly", "@ignore")
-		c.rulePost("@constructor", "@packageonly", "@ignore")
-	}, Explanation: "wip"})
-}
-
-func init() {
 	registerProp(&propDef{ID: "C06", Rules: func(c *Ctx) {
 		c.ruleReqResult()
 		c.ruleFactExport()
@@ -71,27 +91,94 @@ func init() {
 		c.ruleImportScope()
 		c.ruleIterPackages()
 		c.ruleIndexSrc()
-	}, Explanation: "wip"})
-}
+		c.ruleLangEq("@immutable", "@testonly", "@mutable", "@implements", "@constructor", "@packageonly")
+		c.rulePost("@constructor", "@packageonly")
+		c.ruleSitesIMM()
+		c.ruleSitesCTOR()
+		c.ruleSitesTONL()
+		c.ruleSitesPKGO()
+	}, Explanation: "Fact discipline: every analyzer with FactTypes exports, unconditionally and before any live return, a fact of its own type holding the complete PackageAnnotations; ResultOf uses are in Requires with matching ResultType; fact types are gob-encodable field by field (all exported, same shape as PackageAnnotations); builders are instantiated with the calling analyzer's fact type; facts are imported only over pass.Pkg.Imports(), every import is consulted (a missing fact skips one import only), local and imported annotations are processed by the same statements; no object facts / AllPackageFacts. Plus the grammar/argument languages that carry annotation values and the per-family guard signatures that consume them (package-path keyed, no local-only condition except the documented own-package constructor exemption)."})
 
-func init() {
-	registerProp(&propDef{ID: "C16", Rules: func(c *Ctx) {
-		c.ruleIgnoreSetContains()
-		c.ruleIgnoreSetAdd()
-		c.ruleHierarchy()
-	}, Explanation: "wip"})
-}
-
-func init() {
 	registerProp(&propDef{ID: "C07", Rules: func(c *Ctx) {
 		c.ruleIgnoreScope()
 		c.ruleReportGate()
 		c.ruleGateBeforeDedup("testonly", "packageonly")
+		c.ruleIgnoreSetContains()
+		c.ruleIgnoreSetAdd()
+		c.ruleHierarchy()
 		c.ruleLangEq("@ignore")
 		c.ruleAttach("@ignore")
 		c.rulePost("@ignore")
+	}, Explanation: "Scope of an @ignore comment per placement, read off the (start,end) selection: before the package clause -> [comment, file.End()]; trailing code -> [start of the comment's physical (//line-unadjusted) line, comment.End()] iff a node that starts before the comment ends on its line; stand-alone -> [comment, End() of the following declaration / of the first node starting after it]; nothing after -> the comment. Report-time gate on the violation's own GetCode()/GetPos() (or detection-time gate before the dedup update for TONL/PKGO), closed-interval + hierarchy decision of the ignore set, @ignore grammar with upper-cased codes."})
+
+	registerProp(&propDef{ID: "C08", Rules: func(c *Ctx) {
+		c.ruleExcludeFlow()
+		c.ruleFlagTable()
+		c.ruleParseHelpers()
+		c.ruleConfigWiring()
+		c.ruleIgnoreSetContains()
+		c.ruleIgnoreSetAdd()
+		c.ruleHierarchy()
+		c.ruleReportGate()
+		c.ruleCodeTable()
+	}, Explanation: "exclude-checks: both inputs (flag value, environment value) are split/trimmed/upper-cased; the list of the effective configuration is added, whenever non-empty, as global tokens to the very ignore set every analyzer receives; the global phase of Contains precedes the range fast-reject and matches by exact equality against ALL/category/code of the queried code; every diagnostic passes the gate (single report sink, or detection-time gate for every site of packages reporting without a set); the hierarchy table covers every code constant."})
+
+	registerProp(&propDef{ID: "C14", Rules: func(c *Ctx) {
+		c.ruleOneFilter()
+		c.ruleSkipShape()
+		c.ruleCfgSrc()
+		c.ruleConfigWiring()
+		c.ruleSitesTONL()
+		c.rulePosInFile()
+	}, Explanation: "pass.Files is read in exactly one place, Config.FilterFiles, which yields every file for which ShouldSkipFile is false; ShouldSkipFile is true exactly for (name contains an exclude-paths entry) or (!ScanTests and name ends in _test.go), on the file's own name; every reader/checker filters with the effective configuration of its own pass; every TONL site is additionally guarded by !HasSuffix(name,\"_test.go\") regardless of configuration; every diagnostic position is Pos() of a node of a filtered file (or of an annotation read from one)."})
+
+	registerProp(&propDef{ID: "C15", Rules: func(c *Ctx) {
+		c.ruleLangEq()
+		c.ruleAttach(allKeywords...)
+		c.rulePost("@constructor", "@packageonly", "@ignore")
+		c.ruleNoWalkInReader()
+	}, Explanation: "Decision procedure: for each of the 7 keywords the language of the source regular expression (with the argument group made mandatory where the parser rejects an empty argument, all quantifiers greedy) equals the reference grammar over comment texts (no newline), by product-automaton exploration with a shortest distinguishing comment as witness; capture-group languages equal the documented argument languages; every pre-filter (Aho-Corasick dictionary, strings.Contains dispatch) is implied by the regex; the only guards on the way to a parser are its own pre-filters and the declaration-kind dispatch; the parsed text is a line of TypeSpec.Doc-else-GenDecl.Doc / FuncDecl.Doc / Field.Doc of a top-level declaration of a filtered file (no AST walk, no trailing comments); every non-nil result reaches the matching list; list arguments are split on commas, trimmed, empties dropped, codes upper-cased."})
+
+	registerProp(&propDef{ID: "C16", Rules: func(c *Ctx) {
+		c.ruleIgnoreSetContains()
+		c.ruleIgnoreSetAdd()
+		c.ruleHierarchy()
+		c.ruleCodeTable()
+	}, Explanation: "All outcomes of IgnoreSet.Contains enumerated (through the result cell of the range-over-func loops): false for nil/uninitialised; true iff a global token equals (slices.Contains) an element of GetCodesForCheck(code); fast reject only for pos strictly outside [MinPos,MaxPos] and only after the global phase; true iff StartPos <= pos <= EndPos for a marker taken from a range over CodeIndex[element of GetCodesForCheck(code)]; positions are only compared; Add appends every marker, indexes it under each of its codes, maintains MinPos/MaxPos as min/max; GetCodesForCheck yields ALL, category, code from a table built for every category and code."})
+
+	registerProp(&propDef{ID: "C18", Rules: func(c *Ctx) {
+		c.ruleFlagTable()
+		c.ruleParseHelpers()
+		c.ruleConfigWiring()
+		c.rulePanicFree("config")
+	}, Explanation: "Flags defined = flags read = documented flags; each flag's default is the environment-derived value (flag > env > default by construction of package flag); FromEnv reads exactly the documented variables, lists through os.LookupEnv (set-but-empty honoured) with the documented defaults, the bool through parseBool on a non-empty value; parseStringList = split on commas, trim, drop empty, upper-case iff requested (requested for check codes on both paths); parseBool = strconv.ParseBool(lower(trim)) else yes/on; the analyzer owning the flags is named config and parses &pass.Analyzer.Flags once; the configuration cone has no reachable panic site."})
+}
+
+func init() {
+	registerProp(&propDef{ID: "C10", Rules: func(c *Ctx) {
+		c.ruleNilDeref()
+		c.ruleAsserts()
+		c.rulePartialAPI()
+		c.ruleNilMap()
+		c.ruleDivExit()
+		c.ruleReadFileErr()
+		c.ruleTerminates()
+		c.ruleReqResult()
+		c.ruleMainExit()
+		c.ruleIgnoreScopeLineUnadj()
+	}, Explanation: "wip"})
+	registerProp(&propDef{ID: "C17", Rules: func(c *Ctx) {
+		c.ruleCodeTable()
+		c.ruleReportGate()
+		c.rulePosInFile()
+		c.ruleMainExit()
+		c.ruleHierarchy()
 	}, Explanation: "wip"})
 }
+
+func (c *Ctx) thorough(pd *propDef) {}
+
+func (c *Ctx) ruleIgnoreScopeLineUnadj() { c.scopeInline() }
 
 func cmdCheck(args []string) int {
 	prop, tier := "", "quick"
@@ -133,6 +220,10 @@ func cmdCheck(args []string) int {
 			}
 		}()
 		pd.Rules(c)
+		if tier == "thorough" {
+			c.thorough(pd)
+		}
 	}()
+	c.Notes = append(c.Notes, fmt.Sprintf("longest value descriptor: %d bytes (hash limit %d)", descMaxSeen, descHashLimit))
 	return c.finish("other", pd.Explanation, pd.Assumptions)
 }
